@@ -191,7 +191,7 @@ B("c13-fake-player-lost", "C13", TIMED, "                        player=note.pla
 B("c13-fake-all-types", "C13", TIMED, "            if note.note_type == NoteType.TAP:\n", "            if note.note_type in (NoteType.TAP, NoteType.LIFT):\n", "TAP")
 B("c13-fake-type-mine", "C13", TIMED, "                        note_type=NoteType.FAKE,", "                        note_type=NoteType.MINE,", "note_type")
 B("c13-hittable-tag-stop", "C13", ENGINE, "        tagged_beat = (beat, EventTag.STOP_END)\n        prior_state_index = max(0, bisect(self._tagged_beats, tagged_beat) - 1)\n        prior_state: TimingState = self._state_machine[prior_state_index]\n\n        if not prior_state.warp:", "        tagged_beat = (beat, EventTag.STOP)\n        prior_state_index = max(0, bisect(self._tagged_beats, tagged_beat) - 1)\n        prior_state: TimingState = self._state_machine[prior_state_index]\n\n        if not prior_state.warp:", "whole beat")
-B("c13-exception-stop-only", "C13", ENGINE, "            prior_state.event.tag in (EventTag.STOP_END, EventTag.DELAY_END)\n            and beat == prior_state.event.beat", "            prior_state.event.tag in (EventTag.STOP_END,)\n            and beat == prior_state.event.beat", "stop or delay")
+B("c13-exception-stop-only", "C13", ENGINE, "            prior_state.event.tag in (EventTag.STOP_END, EventTag.DELAY_END)\n            and beat == prior_state.event.beat", "            prior_state.event.tag in (EventTag.STOP_END,)\n            and beat == prior_state.event.beat", "exception")
 B("c13-exception-any-beat", "C13", ENGINE, "            prior_state.event.tag in (EventTag.STOP_END, EventTag.DELAY_END)\n            and beat == prior_state.event.beat\n        ):", "            prior_state.event.tag in (EventTag.STOP_END, EventTag.DELAY_END)\n        ):", "same beat")
 B("c13-keep-note-drops", "C13", TIMED, "        if engine.hittable(note.beat) or unhittable_notes == UnhittableNotes.KEEP_NOTE:", "        if engine.hittable(note.beat):", None)
 B("c13-time-with-tag", "C13", TIMED, "            yield TimedNote(time=engine.time_at(note.beat), note=note)", "            yield TimedNote(time=engine.time_at(note.beat, EventTag.STOP_END), note=note)", "time", more=[(TIMED, "from ..timing.engine import SongTime, TimingEngine", "from ..timing.engine import EventTag, SongTime, TimingEngine")])
@@ -210,9 +210,9 @@ B("c14-join-semicolon", "C14", TIMING, 'return ",\\n".join(f"{event.beat}={event
 B("c14-stops-from-delays", ["C14", "C15"], TIMING, "        self.stops = BeatValues.from_str(simfile_or_chart.stops)", "        self.stops = BeatValues.from_str(simfile_or_chart.delays)", "reach the engine")
 B("c14-from-str-no-round", "C14", TIMING, "        return Beat(beat_str).round_to_tick()", "        return Beat(Fraction(beat_str))", "from_str")
 B("c15-threshold", "C15", TSRC, "SSC_VERSION_SPLIT_TIMING = 0.7", "SSC_VERSION_SPLIT_TIMING = 0.8", "0.7")
-B("c15-gt", "C15", TSRC, "and float(simfile.version or \"0\") >= SSC_VERSION_SPLIT_TIMING", "and float(simfile.version or \"0\") > SSC_VERSION_SPLIT_TIMING", "chart is the source")
+B("c15-gt", "C15", TSRC, "and float(simfile.version or \"0\") >= SSC_VERSION_SPLIT_TIMING", "and float(simfile.version or \"0\") > SSC_VERSION_SPLIT_TIMING", "version test")
 B("c15-missing-scrolls", "C15", TSRC, "    SSCChart.scrolls,\n", "", "eleven")
-B("c15-all-instead-of-any", "C15", TSRC, "and any(timing_prop.__get__(chart) for timing_prop in CHART_TIMING_PROPERTIES)", "and all(timing_prop.__get__(chart) for timing_prop in CHART_TIMING_PROPERTIES)", "chart is the source")
+B("c15-all-instead-of-any", "C15", TSRC, "and any(timing_prop.__get__(chart) for timing_prop in CHART_TIMING_PROPERTIES)", "and all(timing_prop.__get__(chart) for timing_prop in CHART_TIMING_PROPERTIES)", "counts as timed")
 B("c15-offset-from-simfile", "C15", TIMING, "        self.offset = Decimal(simfile_or_chart.offset or 0)", "        self.offset = Decimal(simfile.offset or 0)", "not read again")
 B("c15-displaybpm-from-simfile", "C15", DBPM, '        displaybpm_value = properties["DISPLAYBPM"]', '        displaybpm_value = simfile["DISPLAYBPM"]', "not read again")
 B("c15-range-swapped", "C15", DBPM, "return RangeDisplayBPM(min=Decimal(min_bpm), max=Decimal(max_bpm))", "return RangeDisplayBPM(min=Decimal(max_bpm), max=Decimal(min_bpm))", "range")
